@@ -748,6 +748,21 @@ func planC03(prop string, seed uint64, tier string, idx int) *Plan {
 		// an index over manifests that may already carry tags of their own
 		imgs = append(imgs, g.newIndex([]int{imgs[0], imgs[1]}, -1))
 	}
+	nested := -1
+	if g.r.chance(35) {
+		// an index whose descriptor for a child carries a ref.name annotation (exports of nested layouts do): that is a
+		// property of the descriptor, not a tag of the repository
+		materialise(g.p.Objs)
+		c := g.p.Objs[imgs[0]]
+		ghost := g.tagPool[g.r.intn(len(g.tagPool))]
+		g.p.Objs = append(g.p.Objs, &Obj{Kind: "raw", Subject: -1, Raw: `{"schemaVersion":2,"mediaType":"` + mtOCIIndex + `","manifests":[{"mediaType":"` + c.mediaType() + `","digest":"` + c.digest("sha256") + `","size":` + fmt.Sprint(len(c.data)) + `,"annotations":{"org.opencontainers.image.ref.name":"` + ghost + `"}}]}`})
+		nested = len(g.p.Objs) - 1
+		g.pushManifest(0, imgs[0], "", false)
+		g.ops[len(g.ops)-1].Algo, g.ops[len(g.ops)-1].QD = "", ""
+		g.add(Op{K: "man", Repo: 0, Obj: nested, Tag: g.r.str("nest", ""), CT: mtOCIIndex})
+		g.add(Op{K: "get", Mode: "tag", Repo: 0, Tag: ghost, Accept: "all"})
+		g.add(g.tagsOp(0))
+	}
 	if gcTags && g.r.chance(60) {
 		// leftovers: a manifest that carried two tags and lost one keeps an untagged entry next to the tagged one, and the
 		// removal of an earlier entry changes their order
@@ -788,7 +803,11 @@ func planC03(prop string, seed uint64, tier string, idx int) *Plan {
 			}
 			g.add(g.tagsOp(repo))
 		case 12:
-			g.add(Op{K: "get", Mode: "tag", Repo: repo, Tag: g.anyTag(repo), Accept: "all", Head: g.r.chance(30)})
+			tag := g.anyTag(repo)
+			if nested >= 0 && g.r.chance(50) {
+				tag = g.tagPool[g.r.intn(len(g.tagPool))]
+			}
+			g.add(Op{K: "get", Mode: "tag", Repo: repo, Tag: tag, Accept: "all", Head: g.r.chance(30)})
 		default:
 			if g.p.Knobs.Store == "dir" && g.r.chance(35) {
 				// what the tags are is read from index.json again
